@@ -644,7 +644,7 @@ def main(args=None, seed=0):
     unknown = [o for o in ck.obligations if o["status"] == "unknown"]
     rc = 0
     lines = []
-    cases_dir = os.path.join(verif, "replay", "cases")
+    cases_dir = os.environ.get("VERIF_CASES_DIR", os.path.join(verif, "replay", "cases"))
     os.makedirs(cases_dir, exist_ok=True)
     reproduced = []
     notrep = []
@@ -716,8 +716,9 @@ def main(args=None, seed=0):
         "wall_s": round(time.time() - t0, 2),
         "violations": len(reproduced),
     }
-    os.makedirs(os.path.join(verif, "evidence"), exist_ok=True)
-    with open(os.path.join(verif, "evidence", "C17.json"), "w") as f:
+    evdir = os.environ.get("VERIF_EVIDENCE_DIR", os.path.join(verif, "evidence"))
+    os.makedirs(evdir, exist_ok=True)
+    with open(os.path.join(evdir, "C17.json"), "w") as f:
         json.dump(ev, f, indent=1)
         f.write("\n")
     return rc
